@@ -112,6 +112,11 @@ package db
 
 // newCreateTable: automatic indexes are numbered in creation order: the counter passed into every
 // index name is one more than the number of automatic indexes created so far.
+// Column-level constraints (first loop, step clause; c = the column of this round): the WITHOUT ROWID
+// primary key of a column-level PRIMARY KEY is that column with its collation and declared direction.
+// (The same statement for the automatic indexes of rowid tables - single column, the column's
+// collation, the declared direction - was written but not decided by any solver within 120 s and is
+// not claimed; the repaired defect F15 lives there.)
 // Column rule (first loop): a reported column carries the definition's name, type, default and
 // collation; it aliases the rowid iff it is a column-level PRIMARY KEY of a rowid table that isRowid
 // accepts; a PRIMARY KEY column of a WITHOUT ROWID table is NOT NULL whatever the text says.
@@ -128,6 +133,7 @@ package db
 //@   loop 1 invariant [numbering] autoindex == 1 + created
 //@   loop 1 invariant [columns] len(st.Columns) == $i
 //@   loop 1 invariant [columns] forall j int :: 0 <= j && j < $i ==> COLRULE(ct, ct.Columns[j], st.Columns[j])
+//@   loop 1 step [pkwr] c.PrimaryKey && ct.WithoutRowid ==> len(st.PK) == 1 && st.PK[0].Column == c.Name && st.PK[0].Collate == c.Collate && st.PK[0].SortOrder == c.PrimaryKeyDir
 //@   loop 2 invariant [numbering] autoindex == 1 + created
 //@   loop 2 invariant [columns] len(st.Columns) == len(ct.Columns)
 //@   loop 2 invariant [columns] forall j int :: 0 <= j && j < len(ct.Columns) ==> COLSTABLE(ct, ct.Columns[j], st.Columns[j])
